@@ -40,7 +40,12 @@ STORE_SCHEMAS = [None, {'s0': {'_emit': True}}, {'shared': {'_emit': False}},
                  {'shared': {'tok': {'_emit': False}},
                   's0': {'num': {'_emit': False}}},
                  # leaf-level OFF under a branch-level ON
-                 {'s0': {'_emit': True, 'tok': {'_emit': False}}}]
+                 {'s0': {'_emit': True, 'tok': {'_emit': False}}},
+                 # a branch-level OFF acts on leaves two and three levels
+                 # below it; a branch-level ON likewise
+                 {'cell': {'_emit': False}},
+                 {'cell': {'nucleus': {'_emit': False}},
+                  'shared': {'_emit': True}}]
 
 
 class VmcSerializer(Serializer):
@@ -91,13 +96,33 @@ def world(tss, flags, store_schema, emit_step, script, with_step, struct):
                 '_default': {'n': 0, 'keys': []}, '_emit': True,
                 '_updater': 'vmc_grow_in_place', '_serializer': VMC_SER}
             spec['update']['priv']['rec'] = {'$key': 'e'}
+            # a nested branch: cell/size, cell/nucleus/dna,
+            # cell/nucleus/pores/open (on, on, off)
+            spec['schema']['cell'] = {
+                'size': {'_default': 3, '_emit': True},
+                'nucleus': {'dna': {'_default': 2, '_emit': True},
+                            'pores': {'open': {'_default': 0,
+                                               '_emit': False}}}}
+            spec['update']['cell'] = {'size': 1, 'nucleus': {
+                'dna': 1, 'pores': {'open': 1}}}
+            # units + a custom serializer, named by this (first) declarer
+            spec['schema']['shared']['qs'] = {
+                '_default': 2.0 * units.fg, '_emit': True,
+                '_serializer': VMC_SER}
+            spec['update']['shared']['qs'] = 0.001 * units.pg
         else:
+            # a co-declarer gives the same variable only a default with
+            # units: the first declarer's serializer stays
+            spec['schema']['shared']['qs'] = {
+                '_default': 2.0 * units.fg, '_emit': True}
             for (store, var) in DESIGNATED:
                 if store == 'shared':
                     spec['schema']['shared'][var]['_emit'] = \
                         (store, var) in flags
         processes[pid] = spec
         topology[pid] = {'priv': (f's{i}',), 'shared': ('shared',)}
+        if i == 0:
+            topology[pid]['cell'] = ('cell',)
     steps, flow = {}, {}
     if with_step:
         steps['st'] = {
@@ -150,6 +175,9 @@ def flagged(spec):
     on.add(('s0', 'mass'))
     on.add(('s0', 'cs'))
     on.add(('s0', 'rec'))
+    on.add(('cell', 'size'))
+    on.add(('cell', 'nucleus', 'dna'))
+    on.add(('shared', 'qs'))
     if spec['with_step']:
         on.add(('derived', 'copy'))
     ss = spec.get('store_schema') or {}
@@ -204,6 +232,9 @@ def row_matches(path, got, want):
                 and abs(q.magnitude - want.to(units.fg).magnitude) < 1e-9)
     if path[-1] in ('cs', 'rec'):
         return got == f'vmc<{want}>'
+    if path[-1] == 'qs':
+        # the custom serializer, applied to the value in declared units
+        return got == f'vmc<{want.to(units.fg)}>'
     if isinstance(want, tuple):
         return tuple(got) == want
     return got == want and type(got) is type(want)
